@@ -9,6 +9,7 @@ import (
 	"strings"
 
 	"package-operator.run/internal/packages/zzverif/checks"
+	"package-operator.run/internal/packages/zzverif/checks/twin"
 	"package-operator.run/internal/packages/zzverif/kmodel"
 	"package-operator.run/internal/packages/zzverif/osw"
 	"package-operator.run/internal/packages/zzverif/report"
@@ -420,6 +421,18 @@ func replay(v report.Violation) string {
 	return osw.ReplayBFS(system(sc), v)
 }
 
+// twinScenarios: pausing the cluster-scoped kinds in lockstep with the namespaced ones.
+func twinScenarios(quick bool) []twin.Scenario {
+	out := []twin.Scenario{
+		{Kind: "deployment", Classes: []string{"ready"}, Edits: 1, Pauses: 2, Limit: -1},
+		{Kind: "chain", N: 2, Mask: 0b10, Classes: []string{"ready"}, Users: 2},
+	}
+	if !quick {
+		out = append(out, twin.Scenario{Kind: "deployment", Classes: []string{"ready", "notready"}, Edits: 1, Pauses: 3, Limit: -1}, twin.Scenario{Kind: "chain", N: 2, Mask: 0b01, Classes: []string{"ready", "notready"}, Users: 2, Third: 1})
+	}
+	return out
+}
+
 func init() {
 	checks.Register(&checks.Check{
 		ID:    "C09",
@@ -435,6 +448,7 @@ func init() {
 			return 5
 		}, Run: run, Replay: replay, Parallel: true},
 			{Name: "decision", Shards: func(string) int { return 4 }, Run: runDecision, Replay: replayDecision},
-			{Name: "package", Shards: func(string) int { return 3 }, Run: runPackage, Replay: replayPackage, Parallel: true}},
+			{Name: "package", Shards: func(string) int { return 3 }, Run: runPackage, Replay: replayPackage, Parallel: true},
+			twin.Sub("C09", twinScenarios)},
 	})
 }
